@@ -110,3 +110,49 @@ func VerifC13ModHashAnyWeights() {
 	}
 	vapi.Reach("c13-modhash-anyweights")
 }
+
+// selections running concurrently with an update: no panic, every result is a member of the
+// set before or after the update (all schedules within the delay bound)
+func VerifC13ModHashConcurrent() {
+	s := New(false)
+	s.Refresh([]endpoint.Endpoint{c13Ep(0), c13Ep(1)})
+	done := make(chan struct{}, 1)
+	upd := vapi.Choice("update", 3)
+	go func() {
+		switch upd {
+		case 0:
+			_ = s.Remove(c13Ep(1))
+		case 1:
+			_ = s.Add(c13Ep(2))
+		case 2:
+			s.Refresh([]endpoint.Endpoint{c13Ep(2)})
+		}
+		done <- struct{}{}
+	}()
+	for k := 0; k < 2; k++ {
+		ep, err := s.Select(&c13Msg{code: vapi.Uint32("code")})
+		vapi.Check(err == nil, "concurrent: the set is never empty here, so Select succeeds")
+		if err == nil {
+			i := c13HostIndex(ep.Host)
+			switch upd {
+			case 0:
+				vapi.Check(i == 0 || i == 1, "concurrent: member of the old or the new set")
+			case 1:
+				vapi.Check(i >= 0 && i <= 2, "concurrent: member of the old or the new set")
+			case 2:
+				vapi.Check(i >= 0 && i <= 2, "concurrent: member of the old or the new set")
+			}
+		}
+	}
+	<-done
+	ep, err := s.Select(&c13Msg{code: vapi.Uint32("code")})
+	vapi.Check(err == nil, "concurrent: select after the update")
+	i := c13HostIndex(ep.Host)
+	switch upd {
+	case 0:
+		vapi.Check(i == 0, "concurrent: after Remove only the remaining member is served")
+	case 2:
+		vapi.Check(i == 2, "concurrent: after Refresh only the new set is served")
+	}
+	vapi.Reach("c13-modhash-concurrent")
+}
